@@ -20,7 +20,7 @@ OBS_KEY_NULLRESP = "obs-null-response-closure-dropped"
 # RpcServer::onConnection destroyed the channel, the done callback holds the raw `this`
 UAF_KEY = "done-after-down-use-after-free"
 
-LINE = re.compile(r"^(ok|rejected) ev=(\S+) next=(-?\d+) outs=(\S+) pend=(\S+)$")
+LINE = re.compile(r"^(ok|rejected) ev=(\S+) next=(-?\d+) outs=(\S+) pend=(\S+)(?: b:next=(-?\d+) outs=(\S+) pend=(\S+))?$")
 FINAL = re.compile(r"^final dtor=(\S+) leaked=(\S+) respleak=(\S+)$")
 I64MAX = (1 << 63) - 1
 
@@ -85,7 +85,7 @@ def oracle(case, lines):
     (op index, key, message); empty = the property holds on this history."""
     bad = []
     hdr = case.header.split()
-    if "sys=1" in hdr:
+    if "sys=1" in hdr or "sys=2" in hdr:
         return sys_oracle(case, lines)
     svc_on = "svc=1" in hdr or "svc=2" in hdr      # the channel has the service table
     server_owned = "svc=1" in hdr                 # made by RpcServer::onConnection: destroyed on DOWN
@@ -664,79 +664,186 @@ def gen_down(rng, tier):
 
 # --------------------------------------------------------------------------- two channels (client + server)
 def sys_oracle(case, lines):
-    """The first and last sentence of the property joined, on a trace of TWO real channels: every closure runs at most
-    once, only when the client reads, and sees the reply the service made for ITS request (Echo: the request itself;
-    Defer: the data the service supplied when it completed the callback it was handed for that request; a call to the
-    unregistered service: nothing, an error reply); once everything has been pumped and completed, exactly once."""
+    """The first and last sentence of the property joined, on a trace of TWO real channels (sys=1: the client's end A calls,
+    the server's end B serves; sys=2: both ends call and serve, and either connection may go DOWN): every closure runs at
+    most once, only when ITS end reads, and sees the reply the service at the OTHER end made for ITS request (Echo: the
+    request itself; Defer: the data that service supplied when it completed the callback it was handed for that request;
+    the unregistered service: nothing, an error reply); after an end's DOWN none of its closures runs and nothing is
+    dispatched there; calls outstanding on the channel RpcServer made are dropped, not run, when it goes DOWN; once
+    everything has been pumped and completed (no DOWN), every call has completed exactly once."""
     bad = []
     if len(lines) < len(case.ops) + 3:
         return [(len(lines) - 1, "truncated", "implementation produced %d lines for %d ops" % (len(lines), len(case.ops)))]
-    calls = {}            # tag -> (meth, req hex, has closure)
-    thread_call = {}
-    runs = {}
-    tok_req = {}          # token -> request data the service was handed
-    tok_reply = {}        # token -> data the service replied
-    outs = {}
+    calls = {}            # tag -> (end, meth, req hex, has closure)
+    runs, drops = {}, {}
+    tok_req = {"A": {}, "B": {}}      # serving end -> token -> (meth, request data)
+    tok_reply = {"A": {}, "B": {}}
+    down = {"A": False, "B": False}
+    outs = outsb = {}
     for idx, op in enumerate(case.ops):
         m = LINE.match(lines[idx + 1])
         if not m:
             return bad + [(idx, "unparsable", "unparsable output %r" % lines[idx + 1])]
         status, evs, outs = m.group(1), _lst(m.group(2)), _outs(m.group(4))
+        outsb = _outs(m.group(7)) if m.group(7) else {}
         t = op.split()
         k = t[0]
         if status == "rejected":
             if evs:
                 bad.append((idx, "rejected-op-acted", "a rejected op produced %s" % evs))
             continue
+        reader = {"PUMPC": "A", "PUMPA": "A", "PUMPS": "B", "PUMPB": "B"}.get(k)
         if k == "CALL":
-            calls[t[1]] = (t[4], t[5], t[3] == "1")
+            calls[t[1]] = ("A", t[4], t[5], t[3] == "1")
+        elif k == "CALLB":
+            calls[t[1]] = ("B", t[4], t[5], t[3] == "1")
         elif k == "F":
-            calls[t[2]] = (t[5], t[6], t[4] == "1")
+            calls[t[2]] = ("A", t[5], t[6], t[4] == "1")
         elif k == "DONE":
-            tok_reply[int(t[1])] = "-" if t[2] == "-" else t[2]
+            tok_reply["B"][int(t[1])] = "-" if t[2] == "-" else t[2]
+        elif k == "ADONE":
+            tok_reply["A"][int(t[1])] = "-" if t[2] == "-" else t[2]
+        elif k in ("DOWNA", "DOWNB"):
+            down[k[-1]] = True
         for e in evs:
             p = e.split(":")
-            if p[0] == "dispatch":
-                if k != "PUMPS":
-                    bad.append((idx, "sys-dispatch", "the service was called in op %r" % op))
-                tok_req[int(p[1])] = (p[2], p[3])
+            if p[0] in ("dispatch", "adispatch"):
+                srv = "A" if p[0] == "adispatch" else "B"
+                if reader != srv:
+                    bad.append((idx, "sys-dispatch", "the service at end %s was called in op %r" % (srv, op)))
+                if down[srv]:
+                    bad.append((idx, "acted-after-down", "end %s interpreted a frame after its DOWN: %s" % (srv, e)))
+                tok_req[srv][int(p[1])] = (p[2], p[3])
             elif p[0] == "run":
                 tag, seen = p[1], e.split(":", 2)[2]
                 runs[tag] = runs.get(tag, 0) + 1
                 if runs[tag] > 1:
                     bad.append((idx, "closure-twice", "closure of call %s ran %d times" % (tag, runs[tag])))
-                if k != "PUMPC":
-                    bad.append((idx, "closure-without-response", "closure of call %s ran in op %r" % (tag, op)))
                 if tag not in calls:
                     bad.append((idx, "wrong-closure", "closure of an unknown call %s" % tag))
                     continue
-                meth, req, _ = calls[tag]
+                end, meth, req, _ = calls[tag]
+                srv = "B" if end == "A" else "A"
+                if reader != end:
+                    bad.append((idx, "closure-without-response", "closure of call %s (made at end %s) ran in op %r" % (tag, end, op)))
+                if down[end] or tag in drops:
+                    bad.append((idx, "acted-after-down", "closure of call %s ran after its end went DOWN / was dropped" % tag))
                 reqd = "-" if req in ("-", "") else req
                 if meth == "Ping":
                     want = "untouched"
                 elif meth == "Echo":
                     want = "parsed:" + reqd
                 else:
-                    ks = [kk for kk, (mm, rq) in tok_req.items() if mm == "Defer" and rq == reqd and kk in tok_reply]
-                    want = ("parsed:" + tok_reply[ks[0]]) if len(ks) == 1 else "<the service has not replied to this call's request>"
+                    ks = [kk for kk, (mm, rq) in tok_req[srv].items() if mm == "Defer" and rq == reqd and kk in tok_reply[srv]]
+                    want = ("parsed:" + tok_reply[srv][ks[0]]) if len(ks) == 1 else "<the service has not replied to this call's request>"
                 if seen != want:
                     bad.append((idx, "wrong-reply", "closure of call %s (%s %s) saw %s, the service's reply for its request is %s"
                                 % (tag, meth, req, seen, want)))
+            elif p[0] == "drop":
+                drops[p[1]] = drops.get(p[1], 0) + 1
+                if k != "DOWNB" or calls.get(p[1], ("?",))[0] != "B" or drops[p[1]] > 1 or runs.get(p[1], 0):
+                    bad.append((idx, "dtor-mismatch", "closure of call %s dropped in op %r (runs so far %d, drops %d)" % (p[1], op, runs.get(p[1], 0), drops[p[1]])))
             elif p[0] in ("send", "reply"):
                 bad.append((idx, "sys-frame-visible", "frame event %s in a two-channel case" % e))
+            elif p[0] == "uaf":
+                bad.append((idx, UAF_KEY, "done callback %s ran on a destroyed channel" % p[1]))
+        if k == "DOWNB" and outsb:
+            bad.append((idx, "not-erased", "end B's channel destroyed but calls still outstanding: %s" % sorted(outsb)))
     if "quiesce=1" in case.header.split():
-        for tag, (meth, req, d) in calls.items():
+        for tag, (end, meth, req, d) in calls.items():
             n = runs.get(tag, 0)
             if n != (1 if d else 0):
-                bad.append((len(case.ops), "not-exactly-once", "nothing is in flight any more: closure of call %s (%s) ran %d times" % (tag, meth, n)))
-        if outs:
-            bad.append((len(case.ops), "not-erased", "nothing is in flight but calls are still outstanding: %s" % sorted(outs)))
+                bad.append((len(case.ops), "not-exactly-once", "nothing is in flight any more: closure of call %s (%s, end %s) ran %d times" % (tag, meth, end, n)))
+        if outs or outsb:
+            bad.append((len(case.ops), "not-erased", "nothing is in flight but calls are still outstanding: %s %s" % (sorted(outs), sorted(outsb))))
     fm = FINAL.match(lines[len(case.ops) + 1])
     if not fm:
         bad.append((len(case.ops), "unparsable", "bad final line %r" % lines[len(case.ops) + 1]))
     elif fm.group(2) != "-" or fm.group(3) != "-":
         bad.append((len(case.ops), "closure-leaked", "leaked: %s %s" % (fm.group(2), fm.group(3))))
     return bad
+
+
+def gen_bi(rng, tier):
+    """two real channels, both calling and serving; either connection may go DOWN in the middle"""
+    count = 300 if tier == "quick" else 15000
+    for j in range(count):
+        ops, tag = [], 0
+        helper = None                                  # (remaining steps, meth) of the helper thread at end A
+        wire = {"A": [], "B": []}                      # requests written towards that end and not yet read
+        ntok = {"A": 0, "B": 0}
+        open_toks = {"A": [], "B": []}
+        down = {"A": False, "B": False}
+        with_down = rng.random() < 0.35
+
+        def pump(end):
+            ops.append("PUMP" + end)
+            if down[end]:
+                return
+            for meth in wire[end]:
+                if meth in ("Echo", "Defer"):
+                    if meth == "Defer":
+                        open_toks[end].append(ntok[end])
+                    ntok[end] += 1
+            wire[end] = []
+
+        for _ in range(rng.randint(4, 16)):
+            x = rng.random()
+            if x < 0.18 and not (down["A"] and False):
+                tag += 1
+                meth = rng.choice(["Echo", "Defer", "Defer", "Ping"])
+                ops.append("CALL %d 1 %d %s %s" % (tag, rng.choice([1, 1, 1, 0]), meth, req_of(tag)))
+                if not down["A"]:
+                    wire["B"].append(meth)
+            elif x < 0.36 and not down["B"]:
+                tag += 1
+                meth = rng.choice(["Echo", "Defer", "Defer", "Ping"])
+                ops.append("CALLB %d 1 %d %s %s" % (tag, rng.choice([1, 1, 1, 0]), meth, req_of(tag)))
+                wire["A"].append(meth)
+            elif x < 0.44 and helper is None:
+                tag += 1
+                meth = rng.choice(["Echo", "Defer", "Ping"])
+                helper = (["R 1", "S 1"], meth)
+                ops.append("F 1 %d 1 1 %s %s" % (tag, meth, req_of(tag)))
+            elif x < 0.52 and helper is not None:
+                st = helper[0].pop(0)
+                ops.append(st)
+                if st.startswith("S"):
+                    if not down["A"]:
+                        wire["B"].append(helper[1])
+                    helper = None
+            elif x < 0.66:
+                pump("B")
+            elif x < 0.80:
+                pump("A")
+            elif x < 0.88:
+                if open_toks["B"] and not down["B"]:      # a DONE after end B's DOWN is F-21: kept out of these histories
+                    ops.append("DONE %d %02x" % (open_toks["B"].pop(rng.randrange(len(open_toks["B"]))), rng.randrange(256)))
+            elif x < 0.95:
+                if open_toks["A"]:
+                    ops.append("ADONE %d %02x" % (open_toks["A"].pop(rng.randrange(len(open_toks["A"]))), rng.randrange(256)))
+            elif with_down:
+                end = rng.choice(["A", "B"])
+                if not down[end]:
+                    ops.append("DOWN" + end)
+                    down[end] = True
+                    if end == "B":
+                        open_toks["B"] = []
+        hdr = "svc=0 sys=2" + rng.choice(["", "", " seg=1", " seg=5", " seg=16"])
+        if not (down["A"] or down["B"]) and rng.random() < 0.8:
+            if helper is not None:
+                ops += helper[0]
+                wire["B"].append(helper[1])
+                helper = None
+            pump("B")
+            pump("A")
+            for end, opn in (("B", "DONE"), ("A", "ADONE")):
+                rng.shuffle(open_toks[end])
+                ops += ["%s %d %02x" % (opn, k, rng.randrange(256)) for k in open_toks[end]]
+                open_toks[end] = []
+            ops += ["PUMPA", "PUMPB"]
+            hdr += " quiesce=1"
+        yield vlib.Case("bi%d" % j, hdr, ops, "two-channels-both-ways" + ("-down" if (down["A"] or down["B"]) else ""))
 
 
 def gen_sys(rng, tier):
@@ -784,7 +891,7 @@ def gen_sys(rng, tier):
                     ops.append("DONE %d 00" % (ntok + 2))
             else:
                 ops.append("PUMPC")
-        hdr = "svc=0 sys=1"
+        hdr = "svc=0 sys=1" + rng.choice(["", "", " seg=1", " seg=3", " seg=8", " seg=40"])
         if rng.random() < 0.8:
             for t in sorted(helpers):
                 ops += helpers[t][0]
@@ -1089,8 +1196,12 @@ def nontrivial(case, lines):
             ev.add("immediate")
         if k == "DOWN" and m.group(1) == "ok":
             ev.add("down")
-        if k in ("PUMPS", "PUMPC"):
+        if k in ("PUMPS", "PUMPC", "PUMPA", "PUMPB"):
             ev.add("two-channels")
+        if k in ("DOWNA", "DOWNB") and m.group(1) == "ok":
+            ev.add("down-" + k[-1])
+        if k == "CALLB":
+            ev.add("both-ways")
         if k in ("SER", "WIRE"):
             ev.add("wire-" + ("reject" if "parsed:reject" in evs else "accept" if k == "WIRE" else "ser") + "-%d" % (len(op) % 7))
         if "drop" in kinds:
@@ -1131,7 +1242,7 @@ def run(chk, replay=None):
         cases = []
         for f in sorted(glob.glob(os.path.join(vlib.ROOT, "corpus", "C19", "*.case"))):
             cases += load_cases(f, "corpus", prefix="corpus_" + os.path.basename(f)[:-5] + "_")
-        for g in (gen_immediate, gen_null_response, gen_permutations, gen_threads, gen_burst, gen_server, gen_down, gen_wire, gen_sys):
+        for g in (gen_immediate, gen_null_response, gen_permutations, gen_threads, gen_burst, gen_server, gen_down, gen_wire, gen_sys, gen_bi):
             cases += list(g(rng, tier))
     hist = {}
     for c in cases:
@@ -1154,7 +1265,8 @@ def run(chk, replay=None):
             partial = [x for x in partial if x.strip()]
             j = max(0, len(partial) - 1)                 # the op that was executing
             key, what = "crash", "implementation crashed"
-            if j < len(c.ops) and c.ops[j].split()[0] == "DONE" and "DOWN" in c.ops[:j] and "svc=1" in c.header.split():
+            if j < len(c.ops) and c.ops[j].split()[0] == "DONE" and \
+                    (("DOWN" in c.ops[:j] and "svc=1" in c.header.split()) or ("DOWNB" in c.ops[:j] and "sys=2" in c.header.split())):
                 key, what = UAF_KEY, ("the service ran the done callback of a deferred request after the connection went down: "
                                       "RpcChannel::doneCallback executed on the channel RpcServer::onConnection had destroyed")
             item = (c, len(partial), key, "%s (rc=%s) in op %d %r: %s" % (what, rc, j, c.ops[j] if j < len(c.ops) else "end", crash_head(se)))
@@ -1198,13 +1310,14 @@ def run(chk, replay=None):
                        "the history has >= 2 calls outstanding at once, an out-of-order / ignored / corrupt / error response, a foreign-thread "
                        "micro-step, a burst, or a server reply; distinct by (op-kind sequence, event set, final line)")
     chk.cov["tier_adds"] = ("quick: permutations of <= 5 calls exhaustively, 600 sampled 3-thread interleavings, 1500/1500/2000/300 random "
-                            "histories per family, 400 RpcMessage encodings with one variant each, 300 two-channel histories" if tier == "quick" else
+                            "histories per family, 400 RpcMessage encodings with one variant each, 300 one-way + 300 two-way two-channel histories" if tier == "quick" else
                             "thorough: ALL permutations of the responses to <= 7 outstanding calls (5913 plain histories), ALL interleavings of "
                             "2 threads x 1 call, 3 threads x 1 call (1680) and 2 threads x 2 calls (924), 5000 sampled 4-thread interleavings, "
                             "60000 random orders for 6..8 calls, 60000 random thread programs, 80000 random server histories, 15000 histories "
                             "with a connection DOWN, bursts of up to 6 threads x 60 concurrent calls (100 repetitions), 20000 RpcMessage encodings "
                             "each with its canonical decoding and one reordered / duplicated / unknown-field / wrong-wire-type / bad-enum / truncated / "
-                            "corrupted / random variant, 15000 two-channel histories (real client channel + real RpcServer-made channel)")
+                            "corrupted / random variant, 15000 one-way and 15000 two-way two-channel histories (real client channel + real RpcServer-made "
+                            "channel; DOWN of either end in a third of the two-way ones; every write(2) cut to k bytes in half of them)")
     chk.cov["traces_validated_against_impl"] = len(cases) - len(corr_bad)
     chk.add_obligation("correspondence: extracted C19_Model.step == muduo::net::RpcChannel on every op of every case (events, id_, outstandings_, pending callbacks)", not corr_bad)
     chk.add_obligation("oracle: the property text on the implementation's own trace", not oracle_bad)
@@ -1265,7 +1378,7 @@ def run(chk, replay=None):
             if cr is not None:
                 if key == UAF_KEY:
                     j = max(0, len([x for x in cr[2] if x.strip()]) - 1)
-                    return j < len(cc.ops) and cc.ops[j].split()[0] == "DONE" and "DOWN" in cc.ops[:j]
+                    return j < len(cc.ops) and cc.ops[j].split()[0] == "DONE" and ("DOWN" in cc.ops[:j] or "DOWNB" in cc.ops[:j])
                 return key == "crash"
             if li is None:
                 return key == "no-output"
